@@ -4,8 +4,10 @@ package main
 
 import (
 	"fmt"
+	"go/token"
 	"go/types"
 	"os"
+	"strings"
 
 	"golang.org/x/tools/go/ssa"
 )
@@ -124,6 +126,47 @@ func runC20(w *World, r *Report) {
 			statelessObligation(w, r, "wallet-coding-stateless", f.fn)
 		}
 	}
+	// the helper's configuration is read-only: every save and every read seals / opens under the key it was configured
+	// with (a helper value is copied around; slices inside it share their bytes)
+	r.rule("configured-key-is-never-written", "no byte slice that originates from a field of the file helper (its configured key material) is written to — element stores, copy into it, clear — directly or in a helper it is handed to", 1)
+	{
+		nTracked, bad := 0, ""
+		for _, fn := range w.RepoFuncs("fileoperations") {
+			instrsOf(fn, func(in ssa.Instruction) {
+				var val, base ssa.Value
+				switch x := in.(type) {
+				case *ssa.UnOp:
+					if x.Op != token.MUL {
+						return
+					}
+					fa, ok := x.X.(*ssa.FieldAddr)
+					if !ok {
+						return
+					}
+					val, base = x, baseOf(fa.X)
+				case *ssa.Field: // field of a helper passed by value
+					val, base = x, baseOf(x.X)
+				default:
+					return
+				}
+				if _, isSlice := val.Type().Underlying().(*types.Slice); !isSlice {
+					return
+				}
+				if base == nil || !strings.Contains(base.Type().String(), "fileoperations.Helper") {
+					return
+				}
+				if _, fresh := base.(*ssa.Alloc); fresh && fn.Signature.Recv() == nil {
+					return // the helper under construction
+				}
+				nTracked++
+				if at := sliceWrittenTo(w, val, 3, map[ssa.Value]bool{}); at != nil {
+					bad += fmt.Sprintf(" %s, loaded in %s, is written at %s;", pathOf(val), shortFn(fn), lineOf(w, at))
+				}
+			})
+		}
+		r.check(bad == "", "configured-key-is-never-written", "fileoperations.Helper", "-", fmt.Sprintf("configured byte slices are only read (%d loads followed)", nTracked), bad)
+	}
+
 	fe := NewFactEngine(w, w.RepoFuncs("aeswrapper", "fileoperations", "wallet"))
 	r.rule("D3-bounds", "the nonce / ciphertext split of the input is covered by a dominating length fact", 2)
 	d3Obligations(w, r, fe, "D3-bounds", dec)
@@ -249,4 +292,139 @@ func runC20(w *World, r *Report) {
 			r.check(bad == 0, "pem-block-nil", "ReadFromPem/pem.Decode", lineOf(w, c), "every dereference of the decoded block is behind block != nil", fmt.Sprintf("%d unguarded dereferences", bad))
 		}
 	}
+}
+
+// sliceWrittenTo: is slice value v (followed through φ, re-slicing and parameters of repo helpers) the destination of an
+// element store, a copy or a clear? Returns the writing instruction.
+func sliceWrittenTo(w *World, v ssa.Value, depth int, seen map[ssa.Value]bool) ssa.Instruction {
+	if v == nil || seen[v] || depth < 0 {
+		return nil
+	}
+	seen[v] = true
+	refs := v.Referrers()
+	if refs == nil {
+		return nil
+	}
+	for _, ref := range *refs {
+		switch x := ref.(type) {
+		case *ssa.Phi:
+			if at := sliceWrittenTo(w, x, depth, seen); at != nil {
+				return at
+			}
+		case *ssa.Slice:
+			if x.X == v {
+				if at := sliceWrittenTo(w, x, depth, seen); at != nil {
+					return at
+				}
+			}
+		case *ssa.IndexAddr:
+			if x.X == v {
+				for _, r2 := range *x.Referrers() {
+					if st, ok := r2.(*ssa.Store); ok && st.Addr == ssa.Value(x) {
+						return st
+					}
+				}
+			}
+		case *ssa.Call:
+			if b, ok := x.Call.Value.(*ssa.Builtin); ok {
+				if (b.Name() == "copy" || b.Name() == "clear") && len(x.Call.Args) > 0 && x.Call.Args[0] == v {
+					return x
+				}
+				continue
+			}
+			cal := x.Call.StaticCallee()
+			if cal == nil || !isRepoFunc(cal) || len(cal.Blocks) == 0 {
+				continue
+			}
+			for k, a := range x.Call.Args {
+				if a == v && k < len(cal.Params) {
+					if at := sliceWrittenTo(w, cal.Params[k], depth-1, seen); at != nil {
+						return at
+					}
+				}
+			}
+		case *ssa.Store:
+			// placed into a list (the argument array of a variadic call, a slice literal): follow the list
+			if x.Val == v {
+				if ia, ok := x.Addr.(*ssa.IndexAddr); ok {
+					if at := listElementsWritten(w, ia.X, depth, seen); at != nil {
+						return at
+					}
+				}
+			}
+		case *ssa.Defer:
+			cal := x.Call.StaticCallee()
+			if cal == nil || !isRepoFunc(cal) || len(cal.Blocks) == 0 {
+				continue
+			}
+			for k, a := range x.Call.Args {
+				if a == v && k < len(cal.Params) {
+					if at := sliceWrittenTo(w, cal.Params[k], depth-1, seen); at != nil {
+						return at
+					}
+				}
+			}
+		}
+	}
+	return nil
+}
+
+// listElementsWritten: lst holds tracked slices as elements; is any element written to?
+func listElementsWritten(w *World, lst ssa.Value, depth int, seen map[ssa.Value]bool) ssa.Instruction {
+	if lst == nil || seen[lst] || depth < 0 {
+		return nil
+	}
+	seen[lst] = true
+	refs := lst.Referrers()
+	if refs == nil {
+		return nil
+	}
+	for _, ref := range *refs {
+		switch x := ref.(type) {
+		case *ssa.Slice:
+			if at := listElementsWritten(w, x, depth, seen); at != nil {
+				return at
+			}
+		case *ssa.Phi:
+			if at := listElementsWritten(w, x, depth, seen); at != nil {
+				return at
+			}
+		case *ssa.IndexAddr:
+			if x.X != lst {
+				continue
+			}
+			for _, r2 := range *x.Referrers() {
+				if ld, ok := r2.(*ssa.UnOp); ok && ld.Op == token.MUL {
+					if at := sliceWrittenTo(w, ld, depth, seen); at != nil {
+						return at
+					}
+				}
+			}
+		case *ssa.Range:
+			for _, r2 := range *x.Referrers() {
+				if nx, ok := r2.(*ssa.Next); ok {
+					for _, r3 := range *nx.Referrers() {
+						if ex, ok := r3.(*ssa.Extract); ok && ex.Index == 2 {
+							if at := sliceWrittenTo(w, ex, depth, seen); at != nil {
+								return at
+							}
+						}
+					}
+				}
+			}
+		case ssa.CallInstruction:
+			cal := x.Common().StaticCallee()
+			if cal == nil || !isRepoFunc(cal) || len(cal.Blocks) == 0 {
+				continue
+			}
+			for k, a := range x.Common().Args {
+				if a == lst && k < len(cal.Params) {
+					if at := listElementsWritten(w, cal.Params[k], depth-1, seen); at != nil {
+						return at
+					}
+				}
+			}
+		}
+	}
+	return nil
 }
